@@ -34,6 +34,9 @@ type C15Case struct {
 	// unusual but supported value (nil, an infinity, zero values, a string that is not valid UTF-8, sized
 	// numbers, native slices and maps) that Map and MapAsync must store identically
 	Odd int `json:"odd,omitempty"`
+	// FloatFn (mapasync): what the pure function does with a float: 0 x+1, 1 -x, 2 |x|, 3 x itself,
+	// 4 x*0 (a zero with the sign of x); ints: 0-2 x*3, 3 x itself, 4 x*0
+	FloatFn int `json:"floatfn,omitempty"`
 }
 
 func oddResult(slot int) any {
@@ -66,7 +69,8 @@ func oddResult(slot int) any {
 
 var listReadOps = []string{"Get", "GetInt", "TypeOf", "Count", "String", "FormatString", "Clone", "Equals", "SubList", "Concat", "ConcatSelf", "Filter", "FilterInts",
 	"Map", "MapValues", "MapInts", "IntSlice", "StringSlice", "ListSlice", "ObjectSlice", "Slice", "NativeSlice", "Contains", "IndexOf", "GetTF", "TypeOfTF",
-	"Sum", "Min", "Max", "IntSum", "IntMax", "Avg", "Reduce", "ReduceInts", "AllInts", "AllNumeric", "ForEach", "ForEachInt", "ForEachAsync", "MapAsync", "Empty"}
+	"Sum", "Min", "Max", "IntSum", "IntMax", "Avg", "Reduce", "ReduceInts", "AllInts", "AllNumeric", "ForEach", "ForEachInt", "ForEachAsync", "MapAsync", "Empty",
+	"AllObjects", "AllLists", "AllStrings", "AllBools", "AllFloats"}
 
 var objectReadOps = []string{"Get", "TypeOf", "KeyExists", "Count", "String", "FormatString", "Clone", "Equals", "Merge", "MergeSelf", "Pluck", "Keys", "Values", "Dict",
 	"NativeDict", "Contains", "KeyOf", "Map", "MapValues", "MapInts", "ForEach", "ForEachInt", "ForEachAsync", "MapAsync", "GetTF", "TypeOfTF", "Empty"}
@@ -86,6 +90,7 @@ func GenC15(t *rapid.T) *C15Case {
 		if oneIn(t, 3, "oddresults") {
 			c.Odd = 1 + drawInt(t, 0, 3, "oddat")
 		}
+		c.FloatFn = drawInt(t, 0, 4, "floatfn")
 		c.N = []int{0, 1, 2, 3, 5, 8, 16, 40, 64, 65, 129, 257, 1025, 2049}[drawIdx(t, 14, "n")]
 		for i := 0; i < c.N; i++ {
 			c.Yields = append(c.Yields, drawInt(t, 0, 3, "y"))
@@ -122,6 +127,12 @@ func c15Elem(i int, mixed bool) any {
 	case 1:
 		return fmt.Sprintf("s%d", i)
 	case 2:
+		switch i % 18 {
+		case 2:
+			return 0.0
+		case 8:
+			return math.Copysign(0, -1)
+		}
 		return float64(i) + 0.25
 	case 3:
 		return at.NewList(i, "x")
@@ -343,10 +354,26 @@ func runMapAsyncInner(c *C15Case, st *Stats) error {
 		}
 		switch x := v.(type) {
 		case int:
+			switch c.FloatFn % 5 {
+			case 3:
+				return x
+			case 4:
+				return x * 0
+			}
 			return x * 3
 		case string:
 			return x + "!"
 		case float64:
+			switch c.FloatFn % 5 {
+			case 1:
+				return -x
+			case 2:
+				return math.Abs(x)
+			case 3:
+				return x
+			case 4:
+				return x * 0
+			}
 			return x + 1
 		case at.List:
 			if c.Nested {
@@ -389,6 +416,9 @@ func runMapAsyncInner(c *C15Case, st *Stats) error {
 		if any(got) == any(o) {
 			return errf("MapAsync returned its receiver")
 		}
+		if err := sameObservations(c, func(op string) string { return readOpObject(want, o, op, 5) }, func(op string) string { return readOpObject(got, o, op, 5) }, objectReadOps); err != nil {
+			return err
+		}
 	} else {
 		l := at.NewList()
 		for i := 0; i < n; i++ {
@@ -402,6 +432,9 @@ func runMapAsyncInner(c *C15Case, st *Stats) error {
 		}
 		for i := 0; i < want.Count(); i++ {
 			same := ifaceEq(got.Get(i), want.Get(i))
+			if gf, ok := got.Get(i).(float64); ok && same {
+				same = math.Float64bits(gf) == math.Float64bits(want.Get(i).(float64)) // the sign of a zero counts
+			}
 			if !same && (c.Nested || c.Odd > 0) {
 				// containers created by the callback are distinct instances in the two results: compare content
 				same = fpValue(got.Get(i)) == fpValue(want.Get(i))
@@ -413,9 +446,41 @@ func runMapAsyncInner(c *C15Case, st *Stats) error {
 		if !got.Equals(want) || !want.Equals(got) {
 			return errf("list MapAsync result does not Equal the Map result: %s vs %s", clip(got.String(), 200), clip(want.String(), 200))
 		}
+		if err := sameObservations(c, func(op string) string { return readOpList(want, l, op, 5) }, func(op string) string { return readOpList(got, l, op, 5) }, listReadOps); err != nil {
+			return err
+		}
 	}
 	if n >= 2 && c.Procs > 1 {
 		st.MarkNonTrivial()
+	}
+	return nil
+}
+
+// sameObservations: "MapAsync returns exactly what Map returns" - no read-only operation may tell the two
+// results apart (every operation of the concurrent-readers sub-check is applied to both; big results
+// only get the operations that answer from summaries a container may keep: predicates, folds, typed views).
+func sameObservations(c *C15Case, onWant, onGot func(op string) string, ops []string) error {
+	for _, op := range ops {
+		if c.N > 130 {
+			switch op {
+			case "Count", "Empty", "TypeOf", "AllInts", "AllNumeric", "AllObjects", "AllLists", "AllStrings", "AllBools", "AllFloats",
+				"Sum", "IntSum", "Min", "Max", "IntSlice", "FilterInts", "ForEachInt", "Contains", "IndexOf", "KeyOf", "KeyExists", "Keys":
+			default:
+				continue
+			}
+		}
+		var w, g string
+		pw, wp := catch(func() { w = onWant(op) })
+		pg, gp := catch(func() { g = onGot(op) })
+		if wp != gp {
+			return errf("%s on the Map result and on the MapAsync result: panics %v / %v (%v %v)", op, wp, gp, pw, pg)
+		}
+		if strings.Contains(w, "invalid-json:") && strings.Contains(g, "invalid-json:") {
+			continue // text with non-finite floats is not JSON: the raw text of an object has no defined order
+		}
+		if !wp && w != g {
+			return errf("%s tells the MapAsync result from the Map result: %s vs %s", op, clip(g, 200), clip(w, 200))
+		}
 	}
 	return nil
 }
@@ -548,6 +613,16 @@ func readOpList(l, other at.List, op string, salt int) string {
 		r = l.AllInts()
 	case "AllNumeric":
 		r = l.AllNumeric()
+	case "AllObjects":
+		r = l.AllObjects()
+	case "AllLists":
+		r = l.AllLists()
+	case "AllStrings":
+		r = l.AllStrings()
+	case "AllBools":
+		r = l.AllBools()
+	case "AllFloats":
+		r = l.AllFloats()
 	case "ForEach":
 		c := 0
 		l.ForEach(func(i int, x any) { c += i + len(tagOf(x)) })
